@@ -128,6 +128,9 @@ type Explorer struct {
 	timeout int
 	workers int
 	record  int // transcripts to keep per job
+	// deadline of the whole run: afterwards no new path is started and the
+	// jobs that still have work are marked truncated (never "held")
+	deadline time.Time
 }
 
 func (e *Explorer) push(items ...workItem) {
@@ -216,6 +219,7 @@ func (e *Explorer) runPath(m *Machine, it workItem) {
 	}
 	jr.Paths++
 	if (jr.job.Opt.MaxPaths > 0 && jr.Paths > jr.job.Opt.MaxPaths) ||
+		(!e.deadline.IsZero() && time.Now().After(e.deadline)) ||
 		(jr.job.Opt.MaxWallS > 0 && jr.busy > time.Duration(jr.job.Opt.MaxWallS)*time.Second*time.Duration(e.workers)) {
 		jr.Truncated = true
 		jr.Paths--
@@ -421,8 +425,11 @@ func (e *Explorer) runPath(m *Machine, it workItem) {
 	jr.CPU = jr.busy.Seconds()
 }
 
-func runJobs(prog *ssa.Program, pkgs map[string]*ssa.Package, jobs []Job, workers, timeout, record int) ([]*JobResult, error) {
+func runJobs(prog *ssa.Program, pkgs map[string]*ssa.Package, jobs []Job, workers, timeout, record, deadlineS int) ([]*JobResult, error) {
 	e := &Explorer{prog: prog, timeout: timeout, record: record, workers: workers}
+	if deadlineS > 0 {
+		e.deadline = time.Now().Add(time.Duration(deadlineS) * time.Second)
+	}
 	e.cond = sync.NewCond(&e.mu)
 	var results []*JobResult
 	for i := range jobs {
